@@ -3,7 +3,8 @@
 // Every case (schema, world mode, request) is executed
 //
 //	A. 50× in this process on ONE shared schema value, interleaved with all other cases in a different order per
-//	   round, alternately through graphql.Do and through PlanCache.Get + ExecutePlan (cached plans);
+//	   round, in turn through graphql.Do, PlanCache.Get + ExecutePlan (cached plans) and one PlanQuery'd plan per case
+//	   that is executed again and again;
 //	B. 10× in this process on FRESHLY BUILT schemas (orders frozen at schema construction show up here);
 //	C. once in each of 8 FRESH PROCESSES (the harness re-executes itself with --child; different map seeds).
 //
@@ -47,7 +48,7 @@ type schemaSpec struct {
 }
 
 type modeT struct {
-	Errors, Thunks, AllThunks, Exts, FailLeaves bool
+	Errors, Thunks, AllThunks, Exts, FailLeaves, Mut bool
 }
 
 func (m modeT) String() string {
@@ -55,7 +56,7 @@ func (m modeT) String() string {
 	for _, p := range []struct {
 		b bool
 		n string
-	}{{m.Errors, "err"}, {m.Thunks, "thunk"}, {m.AllThunks, "allthunk"}, {m.Exts, "ext"}, {m.FailLeaves, "failleaves"}} {
+	}{{m.Errors, "err"}, {m.Thunks, "thunk"}, {m.AllThunks, "allthunk"}, {m.Exts, "ext"}, {m.FailLeaves, "failleaves"}, {m.Mut, "mutargs"}} {
 		if p.b {
 			s += "+" + p.n
 		}
@@ -114,12 +115,23 @@ var wideRequests = []struct{ kind, q string }{
 	{"hand:enum", `{ h(c: RED, cs: [GREEN, BLUE, ALPHA]) x: h(c: PINK, cs: [RED, 1, "x", null]) }`},
 	{"hand:variables", `query ($o: In, $cs: [Color!]) { f(o: $o) h(cs: $cs) }`},
 	{"hand:nonNull", `{ strict { nn w } t1 { nn kids { nn w } } }`},
+	// resolvers that mutate what they received in place (mode mutargs): composite DEFAULT values next to a sibling argument
+	// supplied through a variable (arguments coerced per request), all-literal arguments (pre-coerced at plan time),
+	// composite literals, composite variables; query and mutation roots, nested object fields
+	{"hand:mutatingResolver", `query ($t: String) { echo(term: $t) }`},
+	{"hand:mutatingResolver", `query ($t: String, $l: Int) { echo(term: $t, limit: $l) t1 { echoT(term: $t) } node { ... on T2 { echoT(term: $t, limit: 1) } } }`},
+	{"hand:mutatingResolver", `{ echo(term: "lit") t1 { echoT } }`},
+	{"hand:mutatingResolver", `query ($t: String) { echo(term: $t, tags: ["z", "y", "x"], opts: {a: 9, e: {b: 1}}, grid: [[9, 8], [7]]) }`},
+	{"hand:mutatingResolver", `query ($o: In, $tags: [String], $t: String) { echo(opts: $o, tags: $tags, ins: [$o, {a: 4}]) e2: echo(term: $t, ins: [{a: 1, e: {a: 2}}]) }`},
+	{"hand:mutatingResolver", `mutation ($t: String) { echoM(term: $t) again: echoM(term: $t, tags: ["k"]) }`},
+	{"hand:aliasEnum", `{ alias aliases a2: alias(x: CRIMSON) a3: alias(x: AZURE) node { ... on T1 { al als } ... on T2 { al als } ... on T3 { al } ... on T4 { als } } nodes { ... on Typed { w } } }`},
 	{"hand:abstract", `{ u { __typename ... on T1 { me u { __typename ... on Node { w } } } ... on Node { x z { __typename w } } } us { ... on T2 { kids { w } } ... on T4 { me } } }`},
 }
 
 var wideVars = map[string]interface{}{
 	"o":  map[string]interface{}{"a": "x", "b": "y", "c": "z", "d": "w", "zz": 1, "yy": 2},
 	"cs": []interface{}{"RED", "NOPE", "ALSO", 3},
+	"t":  "x", "l": 3, "tags": []interface{}{"q", "p"},
 }
 
 func buildCases(seed uint64, thorough bool) ([]schemaSpec, []caseT) {
@@ -148,6 +160,10 @@ func buildCases(seed uint64, thorough bool) ([]schemaSpec, []caseT) {
 			ms = modes
 		case "hand:implementationsOrder":
 			ms = []modeT{{}, {Errors: true, Thunks: true}}
+		case "hand:mutatingResolver":
+			ms = []modeT{{Mut: true}, {Mut: true, AllThunks: true}, {}}
+		case "hand:aliasEnum":
+			ms = []modeT{{}, {Mut: true, Thunks: true}}
 		}
 		for _, m := range ms {
 			add(caseT{Schema: 0, Mode: m, Kind: wr.kind, Query: wr.q, Vars: wideVars})
@@ -183,6 +199,7 @@ func buildCases(seed uint64, thorough bool) ([]schemaSpec, []caseT) {
 				vars[k] = gq.FromWire(v)
 			}
 			m := modes[d%len(modes)]
+			m.Mut = (d/2)%2 == 0 // half of the generated requests run against argument-mutating resolvers
 			kind := "valid"
 			if m.Errors || m.FailLeaves {
 				kind = "exec-fail"
@@ -245,10 +262,11 @@ type env struct {
 	specs  []schemaSpec
 	built  map[builtKey]*graphql.Schema
 	caches map[builtKey]*graphql.PlanCache
+	plans  map[string]*graphql.Plan // case id → plan prepared once with PlanQuery and executed again and again (nil: none)
 }
 
 func newEnv(specs []schemaSpec) *env {
-	return &env{specs: specs, built: map[builtKey]*graphql.Schema{}, caches: map[builtKey]*graphql.PlanCache{}}
+	return &env{specs: specs, built: map[builtKey]*graphql.Schema{}, caches: map[builtKey]*graphql.PlanCache{}, plans: map[string]*graphql.Plan{}}
 }
 
 func (e *env) schema(c *caseT) (*graphql.Schema, *graphql.PlanCache, error) {
@@ -258,6 +276,7 @@ func (e *env) schema(c *caseT) (*graphql.Schema, *graphql.PlanCache, error) {
 	}
 	w := detworld.New(e.specs[c.Schema].Desc, 7)
 	w.Errors, w.Thunks, w.AllThunks, w.FailLeaves = c.Mode.Errors, c.Mode.Thunks, c.Mode.AllThunks, c.Mode.FailLeaves
+	w.MutateArgs = c.Mode.Mut
 	hooks := w.Hooks()
 	if e.specs[c.Schema].Name == "wide" {
 		hooks.Subscribe = nil
@@ -306,22 +325,71 @@ func marshal(v interface{}) string {
 	return string(b)
 }
 
-// run executes one case once. cached selects the PlanCache path.
-func (e *env) run(c *caseT, cached bool) obs {
+// copyVars gives every execution its own copy of the request's variables: the request must be the same request even if
+// the library handed parts of the caller's maps to a resolver that modifies them.
+func copyVars(v interface{}) interface{} {
+	switch x := v.(type) {
+	case map[string]interface{}:
+		out := make(map[string]interface{}, len(x))
+		for k, e := range x {
+			out[k] = copyVars(e)
+		}
+		return out
+	case []interface{}:
+		out := make([]interface{}, len(x))
+		for i, e := range x {
+			out[i] = copyVars(e)
+		}
+		return out
+	}
+	return v
+}
+
+const (
+	pathDo     = 0 // graphql.Do
+	pathCache  = 1 // PlanCache.Get + ExecutePlan
+	pathReplan = 2 // one PlanQuery per case, the same *Plan executed every time
+)
+
+// run executes one case once through the given entry point.
+func (e *env) run(c *caseT, path int) obs {
 	s, cache, err := e.schema(c)
 	if err != nil {
 		return obs{Do: "SCHEMA-ERROR: " + err.Error()}
 	}
+	var vars map[string]interface{}
+	if c.Vars != nil {
+		vars = copyVars(c.Vars).(map[string]interface{})
+	}
 	var o obs
 	o.Do = guard(func() string {
-		if cached && !c.Mode.Exts {
+		if c.Mode.Exts {
+			path = pathDo // the plan entry points do not run the parse/validation hooks
+		}
+		switch path {
+		case pathCache:
 			pr := cache.Get(s, c.Query, c.Op)
 			if len(pr.Errors) > 0 {
 				return marshal(&graphql.Result{Errors: pr.Errors})
 			}
-			return marshal(graphql.ExecutePlan(pr.Plan, graphql.ExecuteParams{Schema: *s, Args: c.Vars, Context: context.Background()}))
+			return marshal(graphql.ExecutePlan(pr.Plan, graphql.ExecuteParams{Schema: *s, Args: vars, Context: context.Background()}))
+		case pathReplan:
+			plan, seen := e.plans[c.ID]
+			if !seen {
+				if doc, perr := parser.Parse(parser.ParseParams{Source: source.NewSource(&source.Source{Body: []byte(c.Query), Name: "GraphQL request"})}); perr == nil {
+					if graphql.ValidateDocument(s, doc, nil).IsValid {
+						if p, err := graphql.PlanQuery(s, doc, c.Op); err == nil {
+							plan = p
+						}
+					}
+				}
+				e.plans[c.ID] = plan
+			}
+			if plan != nil {
+				return marshal(graphql.ExecutePlan(plan, graphql.ExecuteParams{Schema: *s, Args: vars, Context: context.Background()}))
+			}
 		}
-		return marshal(graphql.Do(graphql.Params{Schema: *s, RequestString: c.Query, OperationName: c.Op, VariableValues: c.Vars, Context: context.Background()}))
+		return marshal(graphql.Do(graphql.Params{Schema: *s, RequestString: c.Query, OperationName: c.Op, VariableValues: vars, Context: context.Background()}))
 	})
 	o.Validate = guard(func() string {
 		doc, perr := parser.Parse(parser.ParseParams{Source: source.NewSource(&source.Source{Body: []byte(c.Query), Name: "GraphQL request"})})
@@ -460,7 +528,7 @@ func main() {
 		e := newEnv(specs)
 		out := childOut{Obs: map[string]obs{}}
 		for i := range cases {
-			out.Obs[cases[i].ID] = e.run(&cases[i], false)
+			out.Obs[cases[i].ID] = e.run(&cases[i], pathDo)
 		}
 		json.NewEncoder(os.Stdout).Encode(out)
 		return
@@ -537,7 +605,7 @@ func main() {
 		}(p)
 	}
 
-	// ---- A. shared schema, interleaved, Do / cached plan alternately
+	// ---- A. shared schema, interleaved; Do / cached plan / one prepared plan re-executed, in turn
 	shared := newEnv(specs)
 	for rep := 0; rep < reps; rep++ {
 		order := hx.Fork(run.Seed, 5000+rep)
@@ -550,7 +618,7 @@ func main() {
 			idx[i], idx[j] = idx[j], idx[i]
 		}
 		for _, i := range idx {
-			compare(&cases[i], fmt.Sprintf("A(shared schema, repetition %d, cached=%v)", rep, rep%2 == 1), shared.run(&cases[i], rep%2 == 1))
+			compare(&cases[i], fmt.Sprintf("A(shared schema, repetition %d, entry point %s)", rep, []string{"Do", "PlanCache.Get+ExecutePlan", "PlanQuery once+ExecutePlan"}[rep%3]), shared.run(&cases[i], rep%3))
 		}
 		if run.TooManyViolations() {
 			break
@@ -560,7 +628,7 @@ func main() {
 	for rep := 0; rep < freshReps && !run.TooManyViolations(); rep++ {
 		e := newEnv(specs)
 		for i := range cases {
-			compare(&cases[i], fmt.Sprintf("B(fresh schema %d, same process)", rep), e.run(&cases[i], false))
+			compare(&cases[i], fmt.Sprintf("B(fresh schema %d, same process)", rep), e.run(&cases[i], pathDo))
 		}
 	}
 	// ---- C. compare what the fresh processes (started before phase A) observed
@@ -605,7 +673,7 @@ func main() {
 		key := fmt.Sprintf("%s|%s|%x|%s", specs[c.Schema].Name, c.Mode, h[:8], c.Op)
 		run.Case(key, len(o.Do) > 2 && class != "fault", map[string]interface{}{"id": c.ID, "query": c.Query[:min(len(c.Query), 300)], "result_class": class, "do": o.Do[:min(len(o.Do), 300)]})
 	}
-	run.Res.Rule = fmt.Sprintf("a case is one (schema, resolver-world mode, request); it counts as non-trivial when the request completed with data or errors; every case was executed %d× on one shared schema value interleaved with all others (alternately graphql.Do and PlanCache.Get+ExecutePlan), %d× on freshly built schemas in the same process and once in each of %d fresh processes; both json.Marshal(result) and json.Marshal(ValidateDocument(...).Errors) must be byte-identical throughout; distinctness by (schema, mode, query, operation)", reps, freshReps, procs)
+	run.Res.Rule = fmt.Sprintf("a case is one (schema, resolver-world mode, request); it counts as non-trivial when the request completed with data or errors; every case was executed %d× on one shared schema value interleaved with all others (in turn graphql.Do, PlanCache.Get+ExecutePlan, and re-execution of one prepared plan), %d× on freshly built schemas in the same process and once in each of %d fresh processes; both json.Marshal(result) and json.Marshal(ValidateDocument(...).Errors) must be byte-identical throughout; distinctness by (schema, mode, query, operation)", reps, freshReps, procs)
 	run.Res.Evaluations = len(cases) * (reps + freshReps + procs) // every execution of the real code is compared
 	run.Res.Extra["cases"] = len(cases)
 	run.Res.Extra["executions_per_case"] = reps + freshReps + procs
